@@ -123,6 +123,10 @@ theorem gen_numeric (ka st nc : Int) :
     Gen.ClientCfg.numConnElse Gen.ClientCfg.singleplexElse
   refine ⟨?_, ?_, ?_, ?_, ?_, ?_, ?_, ?_, ?_, ?_⟩ <;> gen_cmp
 
+/-- UDP mode rejects an invalid local address like TCP mode does (before /repo's fix the error of `net.ResolveUDPAddr` was
+dropped and ck-client listened on a random port of every interface: `LocalPort = 80800` with `UDP = true`) -/
+theorem gen_udp_local_addr : Gen.ClientCfg.udpLocalAddrErrorChecked = true := by decide
+
 /-- **a positive `KeepAlive` of N seconds becomes N seconds**: the right-hand side of the assignment, with the
 destination field still at its zero value, is `N · 10⁹` ns.  (Fails on the pinned tree, whose right-hand
 side multiplies the destination field.) -/
